@@ -124,18 +124,6 @@ Definition mpf_round_int (s : mpf) (r : rnd) : res mpf :=
 
 Definition prec_or (prec bc : Z) : Z := if prec =? 0 then bc else prec.
 
-(* the body shared by the two "shifted" branches of mpf_add: big has the larger exponent *)
-Definition add_aligned (bsign bman tsign tman texp offset prec : Z) (r : rnd) : mpf :=
-  (* man = tman +/- (bman << offset), computed exactly, result exponent texp *)
-  if bsign =? tsign then
-    let man := tman + Z.shiftl bman offset in
-    normalize1 bsign man texp (bitcount man) (prec_or prec (bitcount man)) r
-  else
-    let man := if bsign =? 0 then Z.shiftl bman offset - tman else tman - Z.shiftl bman offset in
-    let sg := if 0 <=? man then 0 else 1 in
-    let man := Z.abs man in
-    normalize1 sg man texp (bitcount man) (prec_or prec (bitcount man)) r.
-
 Definition mpf_add_gen (s t : mpf) (prec : Z) (r : rnd) (sub : bool) : mpf :=
   let '(Mpf ssign sman sexp sbc) := s in
   let '(Mpf tsign0 tman texp tbc) := t in
@@ -143,7 +131,7 @@ Definition mpf_add_gen (s t : mpf) (prec : Z) (r : rnd) (sub : bool) : mpf :=
   if negb (sman =? 0) && negb (tman =? 0) then
     let offset := sexp - texp in
     if 0 <? offset then
-      if (100 <? offset) && negb (prec =? 0) && (prec + 4 <? sbc + sexp - tbc - texp) then
+      if (100 <? offset) && negb (prec =? 0) && (prec + 4 <? sbc + sexp - tbc - texp) && (tbc <=? offset) then
         let off := prec + 4 in
         let m := if tsign =? ssign then Z.shiftl sman off + 1 else Z.shiftl sman off - 1 in
         normalize1 ssign m (sexp - off) (bitcount m) prec r
@@ -158,7 +146,7 @@ Definition mpf_add_gen (s t : mpf) (prec : Z) (r : rnd) (sub : bool) : mpf :=
           let man := Z.abs man in
           normalize1 sg man texp (bitcount man) (prec_or prec (bitcount man)) r
     else if offset <? 0 then
-      if (offset <? -100) && negb (prec =? 0) && (prec + 4 <? tbc + texp - sbc - sexp) then
+      if (offset <? -100) && negb (prec =? 0) && (prec + 4 <? tbc + texp - sbc - sexp) && (sbc <=? - offset) then
         let off := prec + 4 in
         let m := if ssign =? tsign then Z.shiftl tman off + 1 else Z.shiftl tman off - 1 in
         normalize1 tsign m (texp - off) (bitcount m) prec r
@@ -341,7 +329,7 @@ Definition mpf_mod (s t : mpf) (prec : Z) (r : rnd) : res mpf :=
   let '(Mpf ssign sman sexp sbc) := s in
   let '(Mpf tsign tman texp tbc) := t in
   if is_special s || is_special t then Ok fnan else
-  if (ssign =? tsign) && (sexp + sbc <? texp) then Ok s else
+  if (ssign =? tsign) && (sexp + sbc <? texp) then Ok (mpf_pos s prec r) else
   if (tman =? 1) && (texp + tbc <? sexp) then Ok fzero else
   let base := Z.min sexp texp in
   let sm := if ssign =? 0 then sman else - sman in
@@ -528,7 +516,8 @@ Definition mpf_hash (s : mpf) : Z :=
   let e := if 0 <=? sexp then sexp mod HASH_BITS
            else HASH_BITS - 1 - ((-1 - sexp) mod HASH_BITS) in
   let h := (Z.shiftl h e) mod HASH_MODULUS in
-  if negb (ssign =? 0) then - h else h.
+  let h := if negb (ssign =? 0) then - h else h in
+  if h =? -1 then -2 else h.
 
 (* what the builtin hash() reports for an object whose __hash__ returned h
    (h already fits Py_ssize_t here): -1 is reserved *)
